@@ -85,6 +85,8 @@ def handleC08k (f : List String) : Res :=
         | .binary => cmp "translated-binary-k" (showO (AC.Gen.Program.contfracBinaryStrategyK n)) impl r
         | .coBinary => cmp "translated-cobinary-k" (showO (AC.Gen.Program.contfracCoBinaryStrategyK n)) impl r
         | .dichotomic => cmp "translated-dichotomic-k" (showO (AC.Gen.Program.contfracDichotomicStrategyK n)) impl r
+        | .dyadic => cmp "translated-dyadic-k" (showO (AC.Gen.Program.contfracDyadicStrategyK n)) impl r
+        | .fermat => cmp "translated-fermat-k" (showO (AC.Gen.Program.contfracFermatStrategyK n)) impl r
         | _ => r
       { r with spec := "na", nt := decide (n ≥ 4), tag := s!"strategy-k={st}" }
     | _, _ => bad "c08k-parse"
